@@ -37,6 +37,48 @@ fn words(max: usize) -> Vec<String> {
     out
 }
 
+/// every pattern with at most `max` nodes of a small regex AST: atoms, postfix repetition, concatenation,
+/// alternation, capturing and non-capturing groups (so that e.g. `a(\s+)b` and `(?:a|\A)b` are reached)
+fn ast_patterns(max: usize) -> Vec<String> {
+    const ATOMS: &[&str] = &["a", "b", " ", ".", r"\s", "[ab]", "[^a]", "^", "$", r"\A", r"\z", r"\b"];
+    // (text, is_atomic): atomic = can take a postfix operator / be concatenated without parentheses
+    let mut by_size: Vec<Vec<(String, bool)>> = vec![vec![], ATOMS.iter().map(|a| (a.to_string(), true)).collect()];
+    for n in 2..=max {
+        let mut cur: Vec<(String, bool)> = vec![];
+        let wrap = |e: &(String, bool)| if e.1 { e.0.clone() } else { format!("(?:{})", e.0) };
+        for e in &by_size[n - 1] {
+            for op in ["?", "*", "+", "{0,2}"] {
+                cur.push((format!("{}{}", wrap(e), op), false));
+            }
+            cur.push((format!("({})", e.0), true));
+        }
+        // concatenation is free (sizes add up), alternation costs one node
+        for i in 1..n {
+            let j = n - i;
+            for l in &by_size[i] {
+                for r in &by_size[j] {
+                    let (ls, rs) = (if l.0.contains('|') && !l.1 { format!("(?:{})", l.0) } else { l.0.clone() }, if r.0.contains('|') && !r.1 { format!("(?:{})", r.0) } else { r.0.clone() });
+                    // a postfix operator binds to the last atom only, so a concatenation is not atomic
+                    cur.push((format!("{}{}", ls, rs), false));
+                }
+            }
+        }
+        for i in 1..n - 1 {
+            let j = n - 1 - i;
+            for l in &by_size[i] {
+                for r in &by_size[j] {
+                    cur.push((format!("{}|{}", l.0, r.0), false));
+                }
+            }
+        }
+        by_size.push(cur);
+    }
+    let mut out: Vec<String> = by_size.into_iter().flatten().map(|e| e.0).collect();
+    out.sort();
+    out.dedup();
+    out
+}
+
 fn inputs(max: usize) -> Vec<Vec<u8>> {
     let mut out: Vec<Vec<u8>> = vec![vec![]];
     let mut cur: Vec<Vec<u8>> = vec![vec![]];
@@ -211,7 +253,11 @@ fn main() {
     }
     let toks: usize = std::env::var("VERIF_MATCHER_TOKENS").ok().and_then(|s| s.parse().ok()).unwrap_or(3);
     let len: usize = std::env::var("VERIF_MATCHER_LEN").ok().and_then(|s| s.parse().ok()).unwrap_or(4);
-    let pats = words(toks);
+    let mut pats = words(toks);
+    let ast: usize = std::env::var("VERIF_MATCHER_AST").ok().and_then(|s| s.parse().ok()).unwrap_or(0);
+    pats.extend(ast_patterns(ast));
+    pats.sort();
+    pats.dedup();
     let ins = inputs(len);
     eprintln!("matcher contract: {} pattern strings x 4 options x {} haystacks", pats.len(), ins.len());
     let next = std::sync::atomic::AtomicUsize::new(0);
